@@ -48,6 +48,16 @@ fn grid(rep: &mut Report) {
                 if w > prev {
                     r.violate("work-increases-with-time", format!("burnfee {} hb {}: work({})={} > work({})={}", bf, hb, e, w, e - 1, prev), json!({"burnfee": bf, "hb": hb, "elapsed": e}));
                 }
+                // reference (the rule as the function documents it): before two heartbeats the
+                // requirement is the parent's burn fee divided by the elapsed milliseconds, in
+                // nolan; integer arithmetic, tolerance one nolan plus the 53-bit mantissa
+                if e < 2 * hb {
+                    let reference = ((*bf as u128) + (e as u128) / 2) / (e as u128);
+                    let tol = 1 + (reference >> 50);
+                    if (w as u128).abs_diff(reference) > tol {
+                        r.violate("work-requirement-differs-from-burnfee-over-elapsed", format!("burnfee {} hb {} elapsed {}: {} but burnfee/elapsed = {}", bf, hb, e, w, reference), json!({"burnfee": bf, "hb": hb, "elapsed": e}));
+                    }
+                }
                 if e >= 2 * hb && w != 0 {
                     r.violate("work-not-zero-after-two-heartbeats", format!("burnfee {} hb {} elapsed {}: {}", bf, hb, e, w), json!({"burnfee": bf, "hb": hb, "elapsed": e}));
                 }
